@@ -17,6 +17,15 @@ def leaf_replay(strings_from):
         for pre in (b"mov rax, ", b"mov ", b"lea rax, ", b"jmp ", b"add qword ", b"vpaddd ymm0, ymm1, ", b""):
             for post in (b"", b", rax", b", 1"):
                 cands.append(pre + s + post + b"\n")
+        # the same operand at the very end of a line whose filtered length is the maximum the line
+        # buffer holds (and one/two less): a first operand padded with leading zeros
+        for total in (99, 98, 97, 96):
+            for head in (b"mov [rax+0x", b"add qword [rax+0x"):
+                tail = b"1], " + s
+                filtered = len(head.replace(b" ", b"")) + 1 + len(tail.replace(b" ", b""))
+                pad = total - filtered
+                if pad > 0:
+                    cands.append(head + b"0" * pad + tail + b"\n")
         ok, detail = tok.api_confirm(eng, cands, tag)
         return {"reproduced": ok, "output": detail, "args": [], "text": repr(s), "bytes": "", "rc": None, "options": None}
     return fn
@@ -34,7 +43,7 @@ def run(tier, only=None):
         ("c09.opds.6x1", "tok_opds.c", ["-DNOPD=6", "-DOPW=1"], [], None, 110, 3000),
     ]
     for t in ("T_REGSTR", "T_ADD", "T_CONST", "T_INDEX", "T_TYPE", "T_KW", "T_MEMTOK", "T_IMMTOK", "T_STRTOREG"):
-        ll = leaflen if t not in ("T_KW", "T_MEMTOK") else min(leaflen, 10)
+        ll = leaflen if t not in ("T_KW", "T_MEMTOK") else (7 if t == "T_KW" else min(leaflen, 9))
         units.append(("c09.leaf.%s" % t[2:].lower(), "tok_leaf.c", ["-D" + t, "-DLEAFLEN=%d" % ll], [], "leaf", 110, 3000))
     if only:
         units = [u for u in units if fnmatch.fnmatch(u[0], only)]
@@ -43,7 +52,7 @@ def run(tier, only=None):
         return te.unit(u[0], u[1], defs=u[2], replace=u[3], unwind=u[5], checks="full", timeout=u[6],
                        replay_fn=leaf_replay(None) if u[4] == "leaf" else None,
                        unwindset={"strstr.0": 110, "strstr.1": 110, "strlen.0": 110, "strchr.0": 110, "strtok_r.0": 110, "strtok_r.1": 110,
-                                  "find_reg.0": te.tb["reg_rows"] + 2, "strcmp.0": 12,
+                                  "find_reg.0": te.tb["reg_rows"] + 2, "strcmp.0": 12, "vf_model_strtoul.0": 30, "vf_model_strtoul.1": 30,
                                   "__CPROVER_file_local_tokenizer_c_operand_tok.0": 8,
                                   "str_to_instr_key.0": te.tb["instr_rows"] + 8, "str_to_instr_key.1": te.tb["instr_rows"] + 8})
     rep.add(core.pmap(ujob, units))
